@@ -19,7 +19,7 @@ ISOLATE = "chunk"       # every chunk of runs in a forked child of a pristine wo
                         # deterministic function of the runs before it in the same chunk (see runner.run_history_iso)
 CHUNK = 128
 SHRINK_LISTS = ("ops",)
-PROBES = {"C15": ["state_dict-roundtrip", "deepcopy-continue", "lti:broadcast-constants", "custom-forward", "ltv-property-only", "refpoint-same-state-new-time", "jump-back", "jump-forward", "jump-tensor", "reset-nonzero", "refpoint-default",
+PROBES = {"C15": ["refpoint-partial", "state_dict-roundtrip", "deepcopy-continue", "lti:broadcast-constants", "custom-forward", "ltv-property-only", "refpoint-same-state-new-time", "jump-back", "jump-forward", "jump-tensor", "reset-nonzero", "refpoint-default",
                   "refpoint-explicit", "read-after-call-since-refpoint", "read-after-jump-since-refpoint",
                   "ltv-wrap", "batched-lti", "float-reftime"]}
 TOL = 1e-10
@@ -36,7 +36,7 @@ def generate(seed, tier, prop="C15"):
     n_ops = ro.randint(2, 40 if tier == "thorough" else 25)
     w = {"call": 5, "read": 3, "readtime": 1, "deepcopy": ro.choice([0, 0, 1]), "roundtrip": ro.choice([0, 0, 1]), "reset": ro.choice([0, 1, 2]), "settime": ro.choice([0, 1, 2]),
          "setref": ro.choice([1, 2]) if kind != "LTI" else 0, "setref_default": ro.choice([0, 1, 2]) if kind == "NLS" else 0,
-         "setref_same": ro.choice([0, 1, 1]) if kind == "NLS" else 0}
+         "setref_same": ro.choice([0, 1, 1]) if kind == "NLS" else 0, "setref_partial": ro.choice([0, 1, 1]) if kind == "NLS" else 0}
     names = [k for k in w if w[k] > 0]
     ops = []
     if kind == "NLS" and ro.random() < 0.7:
@@ -44,10 +44,10 @@ def generate(seed, tier, prop="C15"):
     for i in range(n_ops):
         op = ro.choices(names, [w[k] for k in names])[0]
         o = {"id": i, "op": op}
-        if op in ("reset", "settime", "setref", "setref_same"):
+        if op in ("reset", "settime", "setref", "setref_same", "setref_partial"):
             o["t"] = ro.choice([0, 0, 1, 2, 3, 5, 7, 11, 30]) if ro.random() < 0.8 else ro.randint(0, 60)
             o["tform"] = ro.choice(["int", "i0", "i1"]) if op != "reset" else ro.choice(["int", "int", "i0"])
-            if o["tform"] == "i1" and not (op in ("setref", "setref_same") and kind == "NLS"):
+            if o["tform"] == "i1" and not (op in ("setref", "setref_same", "setref_partial") and kind == "NLS"):
                 o["tform"] = "i0"       # a 1-d tensor is a time only for NLS.set_refpoint (atleast_1d)
             if op == "setref" and kind == "NLS" and ro.random() < 0.15:
                 o["tform"] = "f0"
@@ -346,6 +346,23 @@ def execute(plan, prop, out, tr):
                 ref_t = (xs, us)
                 calls_since_ref = jumps_since_ref = 0
                 out.probe("refpoint-explicit")
+        elif op == "setref_partial":
+            # only the state or only the input is given; the other one defaults to the most recent call's
+            if kind == "NLS" and last_xu is not None:
+                ta = _t_arg(o)
+                if not torch.is_tensor(ta):
+                    ta = torch.tensor(ta, dtype=torch.int64)
+                handed.append((ta, ta.clone(), i))
+                if i % 2:
+                    xs = rng.randn(s, ("xsp", i), (n,), dt)
+                    sysm.set_refpoint(state=xs, t=ta)
+                    ref = (npd(xs), last_xu[0 + 1], float(ta.reshape(-1)[0])); ref_t = (xs, last_xu_t[1])
+                else:
+                    us = rng.randn(s, ("usp", i), (m,), dt)
+                    sysm.set_refpoint(input=us, t=ta)
+                    ref = (last_xu[0], npd(us), float(ta.reshape(-1)[0])); ref_t = (last_xu_t[0], us)
+                calls_since_ref = jumps_since_ref = 0
+                out.probe("refpoint-partial")
         elif op == "setref_same":
             # the same (x*, u*) tensors again, another reference time
             if kind == "NLS" and ref is not None and ref_t is not None:
@@ -410,7 +427,7 @@ def execute(plan, prop, out, tr):
         out.ops += 1
         out.sigs.add("%s|%s|%s|ref%s" % (kind, prev, op, ref is not None))
         prev = op
-    out.nontrivial = any(o["op"] in ("reset", "settime", "setref", "setref_default", "setref_same") for o in plan["ops"])
+    out.nontrivial = any(o["op"] in ("reset", "settime", "setref", "setref_default", "setref_same", "setref_partial") for o in plan["ops"])
 
 
 def describe(prop):
